@@ -133,3 +133,9 @@ package sample
 //@ contract sample.(*WindowedThroughputSampler).GetSampleRate props C28,C04 havoc
 //@   requires d != nil && trace != nil
 //@   ensures[rate-at-least-one] rate >= 1
+
+// ---- C35: the factory is used by every collector worker and by the peer-change callback
+//@ guarded_by sample.SamplerFactory.mutex: goalThroughputConfigs, peerCount
+//@ lockdiscipline sample.SamplerFactory mutex props C35 skip: Start
+//@ guarded_by sample.dynsamplerMetricsRecorder.mu: lastMetrics
+//@ lockdiscipline sample.dynsamplerMetricsRecorder mu props C35 skip: RegisterMetrics
